@@ -59,7 +59,7 @@ Section OneQuery.
     | RReply => q_popped s = true /\ q_handler s = HDone
     | RCtx => q_ctx s = true
     | RTimeout => q_sends s = qc_tries c /\ q_writes s = qc_tries c /\ q_delays s = qc_tries c /\ q_fail s = None
-    | RSendErr x => q_fail s = Some x /\ (x = CClosed -> q_closed s = true) /\ (x = CBlocked -> qc_blocked c = true)
+    | RSendErr x => q_fail s = Some x /\ (x = CClosed -> q_closed s = true) /\ (x = CBlocked -> q_blocked s = true)
     end.
   Proof. exact (result_class c s r). Qed.
 
